@@ -141,7 +141,7 @@ def judge (id : String) (cs : Case) (goObs : List String) : IO Unit := do
   let lines := goObs.map parseLine
   let call (k : String) := lines.filter fun l => l.getD "call" == k
   let spec := Spec.Legacy.ofInput cs.num cs.coll.splitBy cs.cfgs cs.results
-  let setting : Spec.Legacy.Settings := { alpha := cs.coll.alpha, order := cs.coll.order, geo := cs.coll.addGeoMean, T := cs.T }
+  let setting : Spec.Legacy.Settings := { alpha := cs.coll.alpha, order := cs.coll.order, geo := cs.coll.addGeoMean, T := cs.T, test := cs.test }
   let mline (l : Line) : Bool := l.words.contains "m"
   let ims (k : String) : List Spec.Legacy.ImplMetric := (call k).filter mline |>.map fun l =>
       ({ cfg := unhex (l.getD "cfg"), group := unhex (l.getD "g"), bench := unhex (l.getD "b"), unit := unhex (l.getD "u"),
